@@ -1,7 +1,7 @@
 # bin/check configuration of property C01 (a single dict expression)
 {'harness': 'c01',
  'props': 'Props/C01.v',
- 'models': ['Model/Latch.v', 'Model/LatchShape.v'],
+ 'models': ['Model/Latch.v'],
  'trusted': ['ingester and FormatReader enter the theorems as Section variables (any behaviour); the '
              'built-in classification tables are extracted from the seven IsContinuableError bodies',
              'extracted on every run (Gen/LatchShape.v, extractor trusted): the statements of transform.Read and '
